@@ -25,14 +25,12 @@ theorem C03_release_chain {s : State} (h : Reachable s) :
 /-- HAND-OFF.  Whatever happened before ANY earlier release of the mutex happens before the acquirer's
     continuation: at the step by which thread `t` comes to own a share (writer bit, a reader count, or
     the reader→writer conversion), its new clock dominates `released`. -/
-theorem C03_mutex_handoff {s s' : State} (h : Reachable s) (t : Tid) (exp new : Nat) (ord : Ord)
-    (hs : step s (.cas t exp new ord) = .ok s')
+theorem aw_handoff {s s' : State} (h : Reachable s) (t : Tid) (new : Nat) (ord : Ord)
+    (hs : applyWrite s t new ord true = .ok s')
     (hgain : shareOf s t = .none) (hown : shareOf s' t ≠ .none) :
     VC.le s.released (s'.vc t) := by
   have hi := reachable_inv h
   have hv := reachable_vinv h
-  simp only [step] at hs
-  split at hs
   · unfold applyWrite at hs
     simp only at hs
     split at hs
@@ -99,6 +97,19 @@ theorem C03_mutex_handoff {s s' : State} (h : Reachable s) (t : Tid) (exp new : 
             · split at hs
               · cases hs; exact hle
               · cases hs
+
+/-- HAND-OFF.  Whatever happened before ANY earlier release of the mutex happens before the acquirer's
+    continuation: at the step by which thread `t` comes to own a share (writer bit, a reader count, or
+    the reader→writer conversion), its new clock dominates `released`. -/
+theorem C03_mutex_handoff {s s' : State} (h : Reachable s) (t : Tid) (exp new : Nat) (ord : Ord)
+    (hs : step s (.cas t exp new ord) = .ok s')
+    (hgain : shareOf s t = .none) (hown : shareOf s' t ≠ .none) :
+    VC.le s.released (s'.vc t) := by
+  simp only [step] at hs
+  split at hs
+  · split at hs
+    · cases hs
+    · exact aw_handoff h t new ord hs hgain hown
   · cases hs
 
 /-- RELEASE.  At a release point (a write that gives up the writer bit or decrements the reader count)
@@ -144,7 +155,7 @@ theorem C03_released_monotone_step {s s' : State} {e : Ev} (h : step s e = .ok s
     simp only [step] at h
     split at h
     · cases h
-    · cases c <;> simp only at h <;> split at h <;> first | (cases h; exact VC.le_refl _) | cases h
+    · cases c <;> simp only at h <;> first | (cases h; exact VC.le_refl _) | (split at h <;> first | (cases h; exact VC.le_refl _) | cases h)
   | ret t ok =>
     simp only [step] at h
     split at h
@@ -162,19 +173,26 @@ theorem C03_released_monotone_step {s s' : State} {e : Ev} (h : step s e = .ok s
     · split at h
       · cases h; exact VC.le_refl _
       · cases h
-  | annAcq t l => simp only [step] at h; split at h <;> first | (cases h; exact VC.le_refl _) | cases h
-  | annRel t l => simp only [step] at h; split at h <;> first | (cases h; exact VC.le_refl _) | cases h
+    · split at h
+      · cases h; exact VC.le_refl _
+      · cases h
+  | annAcq t l => simp only [step] at h; split at h <;> first | cases h | (split at h <;> first | (cases h; exact VC.le_refl _) | cases h)
+  | annRel t l => simp only [step] at h; split at h <;> first | cases h | (split at h <;> first | (cases h; exact VC.le_refl _) | cases h)
   | cas t exp new ord =>
     simp only [step] at h
     split at h
-    · exact aw_mono h
+    · split at h
+      · cases h
+      · exact aw_mono h
     · cases h
   | st t new ord =>
     simp only [step] at h
     split at h
     · split at h
-      · exact aw_mono h
       · cases h
+      · split at h
+        · exact aw_mono h
+        · cases h
     · cases h
 where
   aw_mono {s s' : State} {t : Tid} {new : Nat} {ord : Ord} {rmw : Bool}
@@ -238,7 +256,9 @@ theorem C03_unlock_happens_before_lock {s1 s1' s2 s2' : State} (h1 : Reachable s
     exact ⟨e0 ++ evs, run_append he0 hrun⟩
   have a : VC.le (s1.vc u) s1'.released := by
     simp only [step, if_true] at hrel
-    exact C03_release_recorded u newU ordU true hrel hrp
+    split at hrel
+    · cases hrel
+    · exact C03_release_recorded u newU ordU true hrel hrp
   have b := C03_released_monotone hrun
   have c := C03_mutex_handoff hr2 t exp new ord hacq hgain hown
   exact VC.le_trans a (VC.le_trans b c)
